@@ -204,9 +204,14 @@ def single_defs(func):
         if isinstance(n, ast.Assign) and len(n.targets) == 1 and isinstance(
                 n.targets[0], ast.Name):
             vals[n.targets[0].id] = n.value
+    gl = set()
+    for n in walk_no_nested(func):
+        if isinstance(n, (ast.Global, ast.Nonlocal)):
+            gl.update(n.names)
     return {
         k: v
-        for k, v in vals.items() if counts.get(k) == 1 and k not in params
+        for k, v in vals.items()
+        if counts.get(k) == 1 and k not in params and k not in gl
     }
 
 
@@ -221,3 +226,62 @@ def expand_locals(func, expr, depth=4):
             break
         cur = subst(cur, {k: defs[k] for k in used})
     return cur
+
+
+def module_const(mod, expr):
+    """Python value of ``expr`` if it is a literal or a Name bound (once) at
+    module level to a literal tuple/list/set/frozenset/dict/str; else raises
+    ValueError."""
+    if isinstance(expr, ast.Name) and expr.id in mod.globals and len(
+            mod.globals[expr.id]) == 1:
+        v = mod.globals[expr.id][0]
+        if isinstance(v, ast.Call) and call_name(v) in (
+                'frozenset', 'set', 'tuple', 'list') and len(v.args) == 1:
+            return const_value(v.args[0])
+        return const_value(v)
+    return const_value(expr)
+
+
+def expand_fact_texts(func, facts):
+    """Adds, for every fact that mentions a single-definition local whose
+    value is a side-effect free expression, the fact with that local
+    substituted (so that hoisting ``x.is_leaf()`` into a local keeps the
+    facts the rules look for)."""
+    impure = {'pop', 'popleft', 'append', 'extend', 'insert', 'remove',
+              'clear', 'update', 'add', 'discard', 'setdefault', 'send',
+              'read', 'write', 'readline', 'communicate', 'wait', 'kill'}
+
+    def pure(v):
+        for c in ast.walk(v):
+            if isinstance(c, (ast.Yield, ast.YieldFrom, ast.Await,
+                              ast.NamedExpr)):
+                return False
+            if isinstance(c, ast.Call):
+                if isinstance(c.func, ast.Attribute) and \
+                        c.func.attr in impure:
+                    return False
+                if isinstance(c.func, ast.Name) and c.func.id in (
+                        'next', 'input', 'open', 'iter'):
+                    return False
+        return True
+
+    defs = {k: v for k, v in single_defs(func).items() if pure(v)}
+    if not defs:
+        return set(facts)
+    out = set(facts)
+    for (t, pol) in facts:
+        try:
+            e = ast.parse(t, mode='eval').body
+        except SyntaxError:
+            continue
+        names = {n.id for n in ast.walk(e) if isinstance(n, ast.Name)}
+        if names & set(defs):
+            cur = e
+            for _ in range(3):
+                used = {n.id for n in ast.walk(cur)
+                        if isinstance(n, ast.Name)} & set(defs)
+                if not used:
+                    break
+                cur = subst(cur, {k: defs[k] for k in used})
+            out.add((unparse(cur), pol))
+    return out
